@@ -367,6 +367,10 @@ func (nd *Node) InvoiceStatus(hash string) (lightning.Invoice, error) {
 func (nd *Node) nextPay(hash string) PayAnswer {
 	s := nd.Scripts[hash]
 	if s == nil || len(s.Pay) == 0 {
+		// "*": a script for whatever payment comes next (its hash is not known in advance)
+		s = nd.Scripts["*"]
+	}
+	if s == nil || len(s.Pay) == 0 {
 		return PaySuccess
 	}
 	a := s.Pay[0]
@@ -379,6 +383,9 @@ func (nd *Node) nextPay(hash string) PayAnswer {
 
 func (nd *Node) nextStatus(hash string, truth Truth) StatusAnswer {
 	s := nd.Scripts[hash]
+	if s == nil || len(s.Status) == 0 {
+		s = nd.Scripts["*"]
+	}
 	if s != nil && len(s.Status) > 0 {
 		a := s.Status[0]
 		s.Status = s.Status[1:]
